@@ -33,13 +33,16 @@ Clear    == /\ q' = <<>> /\ UNCHANGED cap /\ Op("clear", 0, "ok")
 SnapRestore == Same /\ Op("snaprestore", 0, "ok")
 (* MarshalJSON then UnmarshalJSON into a zero Buffer *)
 JsonRT   == Same /\ Op("jsonrt", 0, "ok")
+(* UnmarshalJSON of this buffer's JSON into ANOTHER live buffer that holds other elements
+   (checkpoint reload into an existing component): the target becomes equal to this buffer *)
+JsonIntoUsed == Same /\ Op("jsonintoused", 0, "ok")
 (* Restore of an arbitrary content: accepted iff it fits *)
 Restore(els) == \/ /\ Len(els) <= cap /\ q' = els /\ UNCHANGED cap /\ Op("restore", els, "ok")
                 \/ /\ Len(els) > cap /\ Same /\ Op("restore", els, "refused")
 
 SeqsUpTo(n) == UNION {[1..k -> Vals] : k \in 0..n}
 
-Next == \/ CanPush \/ Size \/ Capacity \/ Peek \/ Elements \/ Pop \/ Clear \/ SnapRestore \/ JsonRT
+Next == \/ CanPush \/ Size \/ Capacity \/ Peek \/ Elements \/ Pop \/ Clear \/ SnapRestore \/ JsonRT \/ JsonIntoUsed
         \/ \E v \in Vals : Push(v) \/ UpdateFront(v)
         \/ \E els \in SeqsUpTo(MaxCap + 1) : Restore(els)
 Spec == Init /\ [][Next]_vars
